@@ -2,8 +2,8 @@ import SamVerif.Lemmas.Incremental
 /-!
 # C10 — Incremental language-server diagnostics equal a from-scratch analysis
 
-Property theorems only (helper lemmas, the side conditions `Frame`, `Local`, `SigIndep`, `CleanS`,
-`OpSafe` and the invariants live in `Lemmas/Incremental.lean`).  The model is
+Property theorems only (helper lemmas, the hypotheses `Frame`, `LocalW`, `Kinds` on the checker
+parameter and the invariants live in `Lemmas/Incremental.lean`).  The model is
 `Model/Incremental.lean` (`dep_graph.rs`, `server_state.rs`, function by function; parser and type
 checker are parameters).  It is tied to the code by the `lsphist` correspondence
 (`harness/src/bin/c10.rs` vs `Driver/C10.lean`): the model, with the real checker's answers as its
@@ -11,6 +11,12 @@ checker parameter, must predict the exact diagnostics the real `ServerState` hol
 operation of random histories.
 
 Diagnostics are compared as sets (`ErrorSet` is a `BTreeSet`): `e ∈ getErrors s k`.
+
+History.  Until the fix commits baf612a / 71ee3bd / f124d3b the code falsified the full statement;
+this file then held `incremental_refines_fresh_partial` (no ROOT operand, parse-clean contents, no
+class-moving rename) and three `…_counterexample_{rename,parse,root}` theorems (findings
+C10-F1..F3).  The model now follows the fixed code, the theorem is at full strength, and the three
+witnesses are regression `example`s below (and `corpus/C10/f*.json` on the real server).
 -/
 namespace SamVerif.Incremental
 
@@ -40,90 +46,77 @@ theorem affected_covers (S : Sources Mod Content) (dirty : List Mod) (k d : Mod)
     (hd : d ∈ dirty) (hr : Reach (fwdEdges ck S) k d) : k ∈ affectedSet ck S dirty :=
   (mem_affectedSet ck S dirty k).mpr ⟨k, ⟨d, hd, hr⟩, .refl k⟩
 
-/-- The recheck set is closed under imports (what makes overwriting whole `errors` entries sound
-for errors located in an imported module). -/
+/-- The recheck set is closed under imports — what makes overwriting whole `errors` entries sound
+although the checker reports some errors into imported modules (`LocalW`). -/
 theorem affected_forward_closed (S : Sources Mod Content) (dirty : List Mod) (k x : Mod)
     (hk : k ∈ affectedSet ck S dirty) (hx : Reach (fwdEdges ck S) k x) :
     x ∈ affectedSet ck S dirty := by
   obtain ⟨a, ha, hak⟩ := (mem_affectedSet ck S dirty k).mp hk
   exact (mem_affectedSet ck S dirty x).mpr ⟨a, ha, hak.trans hx⟩
 
-/-- **No `unwrap()` of `rename_module` (server_state.rs:157,165) can fire**, in any reachable
-state, for any history whatsoever (ROOT operands, unparsable contents, duplicate batches included). -/
-theorem rename_unwrap_never_fires (S0 : Sources Mod Content) (ops : List (Op Mod Content))
-    (op : Op Mod Content) : StepOk ck (run ck ops (fresh ck S0)) op := by
-  have hk : KeysOk (run ck ops (fresh ck S0)) := by
-    unfold run
-    exact foldl_inv KeysOk (step ck) ops (fun s o _ hs => keysOk_step ck s o hs) _
-      (keysOk_fresh ck S0)
-  cases op with
-  | rename rens => exact renameOk_of_keysOk ck _ rens hk
-  | update _ => trivial
-  | remove _ => trivial
-
 /-- The server's file map follows the file-system view of the history (all histories). -/
 theorem sources_follow_files (S0 : Sources Mod Content) (ops : List (Op Mod Content)) :
-    (run ck ops (fresh ck S0)).sources = applyOps ops S0 :=
+    (run ck ops (fresh ck S0)).sources = applyOps ck.root ops S0 :=
   sources_run ck ops (fresh ck S0)
 
-/-
-**Full-strength statement** (`incremental_refines_fresh`), which the unchanged code falsifies:
+/-- **`incremental_refines_fresh`** (full strength): for **every** finite history of update
+(single or batch, repeated modules, new files), rename and remove operations — ROOT operands,
+unparsable contents, renames of modules with classes, renames onto existing or from missing
+modules, cyclic / missing / self imports all included — starting from any set of files, the
+incremental server holds for every module exactly the diagnostics of a freshly started server on
+the current files, its `global_cx` is the fresh one, and its file map is the current files.
 
-  ∀ ck, Frame ck → Local ck → ∀ S0 ops k e,
-    e ∈ getErrors (run ck ops (fresh ck S0)) k ↔ e ∈ getErrors (fresh ck (applyOps ops S0)) k
-
-Three independent counterexamples are proved below (`FullSpec` is this statement):
-`incremental_refines_fresh_counterexample_rename` (C10-F1: the moved signature still names the
-old module), `…_counterexample_parse` (C10-F2: syntax errors of a rechecked, unedited module are
-dropped), `…_counterexample_root` (C10-F3: `remove([ROOT])` deletes the builtin signature).
--/
-
-/-- **`incremental_refines_fresh_partial`**: for every history of unbounded length in which
-ROOT is never an operand, every written content parses without errors and renames occur only if
-signatures do not mention their module (`OpSafe`), starting from any parse-clean set of files,
-the incremental server holds for every module exactly the diagnostics of a freshly started server
-on the current files, its `global_cx` is the fresh one, and its file map is the current files. -/
-theorem incremental_refines_fresh_partial (hF : Frame ck) (hL : Local ck)
-    (S0 : Sources Mod Content) (hS0 : CleanS ck S0) (ops : List (Op Mod Content))
-    (hops : ∀ op ∈ ops, OpSafe ck op) :
+Hypotheses are on the checker parameter only: the frame hypothesis, weak locality (an error
+reported into another module lies in the import closure and is also reported by that module's own
+check) and "only the parser reports syntax errors"; all three are checked dynamically on every
+real checker call of the correspondence run. -/
+theorem incremental_refines_fresh (hF : Frame ck) (hL : LocalW ck) (hK : Kinds ck)
+    (S0 : Sources Mod Content) (ops : List (Op Mod Content)) :
     (∀ k e, e ∈ getErrors (run ck ops (fresh ck S0)) k ↔
-        e ∈ getErrors (fresh ck (applyOps ops S0)) k) ∧
+        e ∈ getErrors (fresh ck (applyOps ck.root ops S0)) k) ∧
       (∀ x, lookup (run ck ops (fresh ck S0)).globalCx x =
-        lookup (fresh ck (applyOps ops S0)).globalCx x) ∧
-      (run ck ops (fresh ck S0)).sources = applyOps ops S0 := by
+        lookup (fresh ck (applyOps ck.root ops S0)).globalCx x) ∧
+      (run ck ops (fresh ck S0)).sources = applyOps ck.root ops S0 := by
   have hinv : Inv ck (run ck ops (fresh ck S0)) := by
     unfold run
-    exact foldl_inv (Inv ck) (step ck) ops (fun s o ho hs => step_inv ck hF hL s o (hops o ho) hs) _
-      (fresh_inv ck S0 hS0)
+    exact foldl_inv (Inv ck) (step ck) ops (fun s o _ hs => step_inv ck hF hL hK s o hs) _
+      (fresh_inv ck S0)
   have hsrc := sources_run ck ops (fresh ck S0)
   refine ⟨fun k e => ?_, fun x => ?_, hsrc⟩
-  · rw [hinv.2.1 k e, hsrc]; rfl
+  · rw [hinv.2 k e, hsrc]; rfl
   · rw [hinv.1 x, hsrc]; rfl
 
-/-- The full-strength statement at fixed types. -/
-def FullSpec (Mod Content Sig Err : Type) [DecidableEq Mod] : Prop :=
-  ∀ ck : Checker Mod Content Sig Err, Frame ck → Local ck →
-    ∀ (S0 : Sources Mod Content) (ops : List (Op Mod Content)) (k : Mod) (e : Err),
-      e ∈ getErrors (run ck ops (fresh ck S0)) k ↔ e ∈ getErrors (fresh ck (applyOps ops S0)) k
+/-- Corollary: no stale diagnostics for a module that is not a file any more. -/
+theorem no_diagnostics_for_non_files (hF : Frame ck) (hL : LocalW ck) (hK : Kinds ck)
+    (S0 : Sources Mod Content) (ops : List (Op Mod Content)) (k : Mod)
+    (hk : lookup (applyOps ck.root ops S0) k = none) :
+    getErrors (run ck ops (fresh ck S0)) k = [] := by
+  apply List.eq_nil_iff_forall_not_mem.mpr
+  intro e he
+  have := ((incremental_refines_fresh ck hF hL hK S0 ops).1 k e).mp he
+  rw [fresh_char ck hL] at this
+  obtain ⟨c, hc, _⟩ := this
+  rw [hk] at hc; cases hc
 
 end Theorems
 
-/-! ## Counterexamples (each replayed on the real `ServerState`, see `vlib/c10.py: probe_hist`) -/
+/-! ## Regression witnesses of the fixed findings, and non-vacuity -/
 
-/-- Checker for C10-F1: the signature is the module name it was built under; an import `x` whose
-signature was built under another name is an error (`A` is incompatible with `A`). -/
+/-- Checker of former C10-F1: the signature is the module name it was built under; an import `x`
+whose signature was built under another name is an error (`A` is incompatible with `A`). -/
 def ckRename : Checker Nat (List Nat) Nat Nat where
   root := 99
   builtin := 99
   imports := fun c => c
   sig := fun m _ => m
   parseErrs := fun _ => []
+  isSyntax := fun _ => false
   check := fun m c G => (c.filter (fun x => (G x).isSome && G x != some x)).map (fun x => (m, x))
 
-theorem ckRename_local : Local ckRename := by
-  intro S m c k e h
+theorem ckRename_local : LocalW ckRename := by
+  intro S m c k e _ h
   simp only [ckRename, List.mem_map, Prod.mk.injEq] at h
-  obtain ⟨_, _, rfl, _⟩ := h; rfl
+  obtain ⟨_, _, rfl, _⟩ := h; exact .inl rfl
 
 theorem ckRename_frame : Frame ckRename := by
   intro S S' m c hc h
@@ -140,61 +133,71 @@ theorem ckRename_frame : Frame ckRename := by
   intro x hx
   rw [this x hx]
 
-/-- C10-F1 witness: files `1 ↦ (no imports)`, `2 ↦ imports 3`; rename `1 → 3`.  The incremental
-server reports an error in module 2, a fresh one does not. -/
-theorem incremental_refines_fresh_counterexample_rename : ¬ FullSpec Nat (List Nat) Nat Nat := by
-  intro h
-  have := h ckRename ckRename_frame ckRename_local [(1, []), (2, [3])] [.rename [(1, 3)]] 2 3
-  revert this
+theorem ckRename_kinds : Kinds ckRename :=
+  ⟨fun _ _ h => by simp [ckRename] at h, fun _ _ _ _ _ _ => rfl⟩
+
+/-- Former C10-F1 witness (files `1 ↦ ∅`, `2 ↦ imports 3`; rename `1 → 3`): the stale-signature
+error `3 ∈ errors[2]` is gone on the fixed code. -/
+example : 3 ∉ getErrors (run ckRename [.rename [(1, 3)]] (fresh ckRename [(1, []), (2, [3])])) 2 := by
   decide
 
-/-- Checker for C10-F2: a content is (imports, has a syntax error); no type errors at all. -/
+/-- Checker of former C10-F2: a content is (imports, has a syntax error); no type errors. -/
 def ckParse : Checker Nat (List Nat × Bool) Unit Nat where
   root := 99
   builtin := ()
   imports := fun c => c.1
   sig := fun _ _ => ()
   parseErrs := fun c => if c.2 then [7] else []
+  isSyntax := fun e => e == 7
   check := fun _ _ _ => []
 
-/-- C10-F2 witness: `2` imports `1` and has a syntax error; re-saving `1` unchanged makes the
-incremental server forget the syntax error of `2`. -/
-theorem incremental_refines_fresh_counterexample_parse :
-    ¬ FullSpec Nat (List Nat × Bool) Unit Nat := by
-  intro h
-  have := h ckParse (fun _ _ _ _ _ _ => rfl) (fun _ _ _ _ _ h => by simp [ckParse] at h)
-    [(1, ([], false)), (2, ([1], true))] [.update [(1, ([], false))]] 2 7
-  revert this
+/-- Former C10-F2 witnesses: the syntax error of `2` survives the recheck caused by re-saving its
+dependency `1`; a batch that writes `1` twice keeps only the syntax errors of the last text; a
+chained rename leaves no syntax error under the intermediate name. -/
+example : 7 ∈ getErrors (run ckParse [.update [(1, ([], false))]]
+    (fresh ckParse [(1, ([], false)), (2, ([1], true))])) 2 := by decide
+example : 7 ∉ getErrors (run ckParse [.update [(1, ([], true)), (1, ([], false))]]
+    (fresh ckParse [(1, ([], false))])) 1 := by decide
+example : getErrors (run ckParse [.rename [(1, 2), (2, 3)]] (fresh ckParse [(1, ([], true))])) 2 = []
+    ∧ getErrors (run ckParse [.rename [(1, 2), (2, 3)]] (fresh ckParse [(1, ([], true))])) 3 = [7] := by
   decide
 
-/-- Checker for C10-F3: every module needs the builtin signature under ROOT. -/
+/-- Checker of former C10-F3: every module needs the builtin signature under ROOT. -/
 def ckRoot : Checker Nat Unit Unit Nat where
   root := 0
   builtin := ()
   imports := fun _ => []
   sig := fun _ _ => ()
   parseErrs := fun _ => []
+  isSyntax := fun _ => false
   check := fun m _ G => if (G 0).isSome then [] else [(m, 5)]
 
-theorem ckRoot_frame : Frame ckRoot := by
-  intro S S' m c _ _
-  simp [ckRoot, lookup_freshCx]
+/-- Former C10-F3 witness: `remove([ROOT])`, `update([(ROOT, _)])`, `rename ROOT` are ignored;
+the later edit of module 1 sees the builtin signature. -/
+example : getErrors (run ckRoot [.remove [0], .update [(0, ())], .rename [(0, 2), (1, 0)],
+    .update [(1, ())]] (fresh ckRoot [(1, ())])) 1 = [] := by decide
 
-/-- C10-F3 witness: `remove([ROOT])` (what `did_delete_files` sends for an unknown file,
-main.rs:251,409-411), then any edit: "cannot resolve" errors a fresh server does not have. -/
-theorem incremental_refines_fresh_counterexample_root : ¬ FullSpec Nat Unit Unit Nat := by
-  intro h
-  have := h ckRoot ckRoot_frame
-    (fun S m c k e h => by
-      simp only [ckRoot] at h
-      split at h
-      · simp at h
-      · simp only [List.mem_singleton, Prod.mk.injEq] at h; exact h.1)
-    [(1, ())] [.remove [0], .update [(1, ())]] 1 5
-  revert this
+/-- A checker that reports errors *into imported modules* (as the real one does for supertype
+errors): a "bad" content reports `1` at itself, and every importer re-reports it at the same
+place.  Editing an unrelated importer must not lose or duplicate anything. -/
+def ckForeign : Checker Nat (List Nat × Bool) Bool Nat where
+  root := 99
+  builtin := false
+  imports := fun c => c.1
+  sig := fun _ c => c.2
+  parseErrs := fun _ => []
+  isSyntax := fun _ => false
+  check := fun m c G => (if c.2 then [(m, 1)] else []) ++
+    (c.1.filter (fun x => G x == some true)).map (fun x => (x, 1))
+
+example :
+    let ops : List (Op Nat (List Nat × Bool)) :=
+      [.update [(3, ([1], false))], .update [(2, ([], false))], .remove [3], .update [(1, ([], false))]]
+    let S0 : Sources Nat (List Nat × Bool) := [(1, ([], true)), (2, ([1], false))]
+    (∀ k ∈ [1, 2, 3], getErrors (run ckForeign ops (fresh ckForeign S0)) k =
+        getErrors (fresh ckForeign (applyOps 99 ops S0)) k) ∧
+      getErrors (run ckForeign (ops.take 3) (fresh ckForeign S0)) 1 = [1] := by
   decide
-
-/-! ## Non-vacuity -/
 
 /-- `transitive_is_reachability` on a cyclic graph with a missing node. -/
 example : transitiveSet (fun x => if x = 1 then [2, 7] else if x = 2 then [1] else []) [1, 2, 7] [2]
@@ -205,23 +208,18 @@ example : transitiveSet (fun x => if x = 1 then [2, 7] else if x = 2 then [1] el
 example : affectedSet ckRename [(1, [2]), (2, [1]), (3, [3]), (4, [9])] [2] = [2, 1] := by decide
 example : affectedSet ckRename [(1, [2]), (2, [1]), (3, [3]), (4, [9])] [9] = [9, 4] := by decide
 
-/-- The hypotheses of `incremental_refines_fresh_partial` are satisfiable by a history that does
-produce and then repair an error in a dependent module: module 2 imports 3; creating 3 … -/
-example :
-    let ops : List (Op Nat (List Nat)) := [.update [(3, [2])], .remove [1], .update [(1, [3, 4])]]
-    (∀ op ∈ ops, OpSafe ckRename op) ∧ CleanS ckRename [(1, []), (2, [3])] := by
-  refine ⟨?_, fun _ _ _ => rfl⟩
-  intro op hop
-  simp only [List.mem_cons, List.not_mem_nil, or_false] at hop
-  rcases hop with rfl | rfl | rfl <;> simp [OpSafe, keys, ckRename]
+/-- Non-vacuity of `incremental_refines_fresh`: its hypotheses hold for `ckRename`, and on a
+history that creates and repairs errors in a dependent module the conclusion is a concrete fact. -/
+example : ∀ k e, e ∈ getErrors (run ckRename
+      [.update [(3, [2])], .rename [(3, 4)], .remove [1], .update [(1, [3, 4])]]
+      (fresh ckRename [(1, []), (2, [3])])) k ↔
+    e ∈ getErrors (fresh ckRename (applyOps 99
+      [.update [(3, [2])], .rename [(3, 4)], .remove [1], .update [(1, [3, 4])]]
+      [(1, []), (2, [3])])) k :=
+  (incremental_refines_fresh ckRename ckRename_frame ckRename_local ckRename_kinds _ _).1
 
-/-- …and its conclusion is a non-trivial fact on that history. -/
-example : (run ckRename [.update [(3, [2])], .remove [1], .update [(1, [3, 4])]]
-      (fresh ckRename [(1, []), (2, [3])])).sources = [(1, [3, 4]), (3, [2]), (2, [3])] := by
+example : (run ckRename [.update [(3, [2])], .rename [(3, 4)], .remove [1], .update [(1, [3, 4])]]
+      (fresh ckRename [(1, []), (2, [3])])).sources = [(1, [3, 4]), (4, [2]), (2, [3])] := by
   decide
-
-/-- `rename_unwrap_never_fires`: `RenameOk` is a real condition (false in an unreachable state). -/
-example : ¬ RenameOk ckRename ⟨[(1, [])], [], []⟩ [(1, 2)] := by
-  intro h; simp [RenameOk, lookup] at h
 
 end SamVerif.Incremental
